@@ -41,3 +41,8 @@ Theorem C10_L0_output_obeys_the_discipline : forall c p eof, Fmt0Proof.wf_blk p 
   Census.ws_scan (Fmt0Proof.wcfg c eof) true false (Fmt0.pprog c p) = None.
 Proof. exact Fmt0Proof.format0_whitespace_discipline. Qed.
 Print Assumptions C10_L0_output_obeys_the_discipline.
+(* ... in particular what format0 prints for a program whose assignments have a target and whose comments hold no carriage return *)
+Theorem C10_L0_formatted_output_obeys_the_discipline : forall c p eof, Fmt0Proof.wf_blk p ->
+  Census.ws_scan (Fmt0Proof.wcfg c eof) true false (Fmt0.pprog c (Fmt0.norm0 c p)) = None.
+Proof. exact Fmt0Proof.format0_output_obeys_the_discipline. Qed.
+Print Assumptions C10_L0_formatted_output_obeys_the_discipline.
